@@ -32,6 +32,7 @@ func runC08(c *Ctx) {
 	c08R4(c)
 	exprListFresh(c, "R4")
 	parameterListKeepsEveryName(c, "R4")
+	statementsLeaveOperandsAlone(c, "R17")
 	c.shared("R9", "C14/R6", "a call to a user function runs that function: the program's functions are installed into the root frame after the runtime functions, so a user function named like a builtin is the one that is called", keyHas("program-functions-after-runtime-functions", "installed-by-constructor program functions"), func(s *Ctx) { evaluatorConstruction(s, "R6") })
 	if es := c.P.LangFunc("(*Evaluator).evalStatement"); es != nil {
 		c.shared("R10", "C07/R1", "a return inside a loop ends the call with that value: every loop consumes break and continue only and passes every other outcome of its body (the return signal included) on unchanged", keyHas("loop-bod"), func(s *Ctx) { c07LoopConsumption(s, es) })
@@ -756,5 +757,67 @@ func parameterListKeepsEveryName(c *Ctx, rule string) {
 	}
 	if n == 0 {
 		c.undecided(rule, "parameter-list-keeps-every-name", p.Pos(pf.Pos()), "no append of a consumed identifier's text inside a loop found in parseFunction")
+	}
+}
+
+// statementsLeaveOperandsAlone (R17): a statement reads the cells its expressions evaluate to; the
+// only stores statement evaluation makes go to cells it looked up as variables (the for-in variables)
+// and to interpreter state. No statement arm stores through the cell an evalExpr call returned — a
+// `return name` that "normalises" the returned cell rewrites the caller's variable.
+func statementsLeaveOperandsAlone(c *Ctx, rule string) {
+	p := c.P
+	es := p.LangFunc("(*Evaluator).evalStatement")
+	if es == nil {
+		c.undecided(rule, "statements-leave-operands-alone", "", "anchor (*Evaluator).evalStatement not found")
+		return
+	}
+	c.note("%s statements-leave-operands-alone: in evalStatement (and the helpers only it uses) no store goes through the cell that an evalExpr call returned (its Value or a field of it); a finished call or statement then leaves the variables it only read as they were.", rule)
+	nCalls, nBad := 0, 0
+	for _, fn := range p.privateCluster(es) {
+		var viaExpr func(v ssa.Value, depth int) bool
+		viaExpr = func(v ssa.Value, depth int) bool {
+			if depth > 6 {
+				return false
+			}
+			switch x := v.(type) {
+			case *ssa.FieldAddr:
+				return viaExpr(x.X, depth+1)
+			case *ssa.IndexAddr:
+				return viaExpr(x.X, depth+1)
+			case *ssa.UnOp:
+				return viaExpr(x.X, depth+1)
+			case *ssa.Extract:
+				if call, ok := x.Tuple.(*ssa.Call); ok && x.Index == 0 {
+					return staticCalleeIs(call, "(*lang.Evaluator).evalExpr")
+				}
+			case *ssa.Phi:
+				for _, e := range x.Edges {
+					if viaExpr(e, depth+1) {
+						return true
+					}
+				}
+			}
+			return false
+		}
+		for _, call := range callsIn(fn) {
+			if staticCalleeIs(call, "(*lang.Evaluator).evalExpr") {
+				nCalls++
+			}
+		}
+		allInstrs(fn, func(in ssa.Instruction) {
+			st, ok := in.(*ssa.Store)
+			if !ok || isLocalAddr(st.Addr) {
+				return
+			}
+			if viaExpr(st.Addr, 0) {
+				nBad++
+				c.violated(rule, fmt.Sprintf("statements-leave-operands-alone %s #%d", shortName(fn), nBad), p.InstrPos(st), "a statement stores "+p.RenderShort(st.Val)+" through the cell its expression evaluated to ("+p.RenderShort(st.Addr)+"): the variable, member or element the expression named is changed by a statement that only reads it")
+			}
+		})
+	}
+	if nCalls < 6 {
+		c.undecided(rule, "statements-leave-operands-alone", p.Pos(es.Pos()), fmt.Sprintf("%d evalExpr calls found in evalStatement, more than 6 confirmed", nCalls))
+	} else if nBad == 0 {
+		c.ok(rule, "statements-leave-operands-alone", p.Pos(es.Pos()), fmt.Sprintf("%d expression evaluations, no store through their results", nCalls))
 	}
 }
